@@ -132,6 +132,8 @@ def run(ctx):
     for n in range(2, maxn + 1):  # named outputs next to the default output name "0"
         specs += dag_specs(n, "unique", payloads=("alt",), outputs=("multi",), out_names=("0", "b"))
         specs += dag_specs(n, "unique", payloads=("alt",), outputs=("multi",), out_names=("b", "0"))
+    for n in range(2, maxn + 1):  # producers with exactly one output that does not carry the default name
+        specs += dag_specs(n, "unique", payloads=("alt",), outputs=("single-named",), out_names=("result",))
     for n in range(2, min(maxn, 4) + 1):  # node, output and input names that contain separators of every kind
         specs += dag_specs(n, "dotted", payloads=("alt",), outputs=("multi", "default"), out_names=("o.1", "a b"), input_style="in.")
     if not ctx.quick:
